@@ -19,8 +19,7 @@ PROP_UNITS = {
     "C08": {"units": ["alias"], "search": "aliassearch", "kinds": None},
     "C09": {"units": ["tree"], "search": "treesearch",
             "kinds": lambda k: not k.startswith("sample") and k != "panic-in-sample"},
-    "C10": {"units": ["tree"], "search": "treesearch",
-            "kinds": lambda k: k.startswith("sample") or k == "panic-in-sample"},
+    "C10": {"units": ["tree"], "search": "treesearch", "kinds": None},
     "C04": {"units": ["tree", "alias"], "search": None, "kinds": None},
 }
 
